@@ -9,6 +9,7 @@ from __future__ import annotations
 
 import copy
 import os
+import sys
 import traceback
 
 import onnx_ir as ir
@@ -198,8 +199,9 @@ def gen_case(run_seed: int, tier: str, index: int = 0) -> dict:
 
 # ----------------------------------------------------------------- execution
 class _BudgetRecorder:
-    def __init__(self) -> None:
+    def __init__(self, acct=None) -> None:
         self.objs: list = []
+        self.acct = acct
 
     def wrap(self, real_cls):
         rec = self
@@ -209,12 +211,36 @@ class _BudgetRecorder:
                 super().__init__(*a, **k)
                 rec.objs.append(self)
 
+            if hasattr(real_cls, "release"):
+
+                def release(self, *a, **k):
+                    # releasing while an exception unwinds this thread: the bytes it loaded stay referenced by the
+                    # traceback only (a reference the eventual holder of the exception owns), not by the writer
+                    if sys.exc_info()[1] is not None and rec.acct is not None:
+                        rec.acct.drop_pinned_by_traceback()
+                    return super().release(*a, **k)
+
         return RecordingBudget
 
 
 def _expected_external(world, options) -> list[int]:
     thr = options.get("size_threshold_bytes", 0)
     return [i for i, v in enumerate(world.init_values) if v.const_value is not None and v.const_value.nbytes > thr]
+
+
+def _drop_traceback_locals(exc) -> None:
+    import gc
+
+    seen, todo = set(), [exc]
+    while todo:
+        e = todo.pop()
+        if e is None or id(e) in seen:
+            continue
+        seen.add(id(e))
+        traceback.clear_frames(e.__traceback__)
+        todo += [e.__cause__, e.__context__]
+        todo += list(getattr(e, "exceptions", ()) or ())
+    gc.collect()
 
 
 def run_case(case: dict) -> dict:
@@ -272,7 +298,7 @@ def _run(case: dict, root: str, res: dict) -> None:
     cb = None
     if options.get("callback"):
         cb = workload.CallbackRecorder(acct, faults.get("callback_fail_at"), faults.get("callback_exc", "RuntimeError"))
-    budgets = _BudgetRecorder()
+    budgets = _BudgetRecorder(acct)
 
     def probe():
         blocked = sum(1 for t in sched.threads if not t.finished and t.pred is not None)
@@ -309,6 +335,10 @@ def _run(case: dict, root: str, res: dict) -> None:
                 raised = e
             if not aborted and not sched.aborting:
                 unfinished_at_return = [(t.idx, t.name, t.tag) for t in sched.unfinished() if t.idx not in sched.idle_workers or True]
+                if raised is not None and acct.held:
+                    # a traceback keeps the locals of every frame it passed through alive; those references belong to
+                    # whoever holds the exception (this harness), not to the call under test
+                    _drop_traceback_locals(raised)
                 held_at_return = acct.held
                 try:
                     sched.drain(lambda: simthreading.release_abandoned_executors(sched))
